@@ -111,13 +111,15 @@ Proof.
       * exact Hc1.
     + (* start call *)
       destruct (in_call y) eqn:Ec; try discriminate.
-      destruct ((valid (st0 y) || valid (st1 y)) && workers_idle (st0 y) && workers_idle (st1 y)) eqn:Ei; [|discriminate].
-      apply andb_true_iff in Ei. destruct Ei as [Ei I1]. apply andb_true_iff in Ei. destruct Ei as [_ I0].
-      inversion H; subst; clear H. cbn in Hc0, Hc1. destruct Hc0, Hc1. constructor; cbn.
-      * apply sinv_begin_start; assumption.
-      * apply sinv_begin_start; assumption.
-      * apply (begin_start_call (st0 y)); assumption.
-      * apply (begin_start_call (st1 y)); assumption.
+      destruct (valid (st0 y) || valid (st1 y)) eqn:Ev.
+      * destruct (workers_idle (st0 y) && workers_idle (st1 y)) eqn:Ei; [|discriminate].
+        apply andb_true_iff in Ei. destruct Ei as [I0 I1].
+        inversion H; subst; clear H. cbn in Hc0, Hc1. destruct Hc0, Hc1. constructor; cbn.
+        -- apply sinv_begin_start; assumption.
+        -- apply sinv_begin_start; assumption.
+        -- apply (begin_start_call (st0 y)); assumption.
+        -- apply (begin_start_call (st1 y)); assumption.
+      * inversion H; subst; clear H. cbn in Hc0, Hc1. destruct Hc0 as [A0 B0], Hc1 as [A1 B1]. constructor; cbn; auto.
     + (* start returns *)
       destruct (in_call y) eqn:Ec; try discriminate.
       * destruct (ok && started_ok (st0 y) && started_ok (st1 y)) eqn:Ei; [|discriminate].
